@@ -326,7 +326,7 @@ STUB_PLANNER = "planner scripted: bool-guarded prologues (cfg(kani), off by defa
 for nm, d, c in (("min", "one chunk moved: A(2)@3 -> @0", ""),
               ("min_faults", "as min; the k-th read or the k-th write fails (k symbolic, incl. none)", "; a failed read or write makes the run fail (never a success with a wrong file)"),
               ("two_dests", "one chunk copied to two destinations: D(2)@6 -> @8,@10; a second chunk still to be fetched stays in the clone index", "")):
-    h("c03_exec_" + nm, ["C03"], "quick", d + "; layout and plan concrete, EVERY byte of the 12-byte prior file content symbolic",
+    h("c03_exec_" + nm, ["C03"], "thorough" if "faults" in nm else "quick", d + "; layout and plan concrete, EVERY byte of the 12-byte prior file content symbolic",
       "whole run of the real reorder_in_place: after a run that reports success every moved chunk's ORIGINAL bytes are at all of its destinations (a chunk buffered by StoreInMem is written from the buffer, not re-read after it was overwritten), bytes outside the destinations are untouched, moved chunks have left the clone index, the moved-byte count is right" + c,
       EXEC, [MODEL_MAP, STUB_PLANNER], heavy=True)
 
